@@ -102,7 +102,7 @@ func (p *Prog) ResolveAnchors() *Anchors {
 		"connection mutex": func() *types.Var {
 			// the lock Connected() takes
 			var r *types.Var
-			if f := p.Func(cl, "(*Conn).Connected"); f != nil {
+			if f := p.followForward(p.Func(cl, "(*Conn).Connected")); f != nil {
 				funcInstrs(f, func(in ssa.Instruction) {
 					if cc := callOf(in); cc != nil && !cc.IsInvoke() && len(cc.Args) > 0 {
 						if fv, _ := fieldOf(cc.Args[0]); fv != nil && typeString(fv.Type()) == "sync.RWMutex" {
@@ -182,7 +182,7 @@ func (p *Prog) ResolveAnchors() *Anchors {
 		return a
 	}
 	// connected flag: the field Connected() returns
-	if f := p.Func(cl, "(*Conn).Connected"); f != nil {
+	if f := p.followForward(p.Func(cl, "(*Conn).Connected")); f != nil {
 		funcInstrs(f, func(in ssa.Instruction) {
 			if u, ok := in.(*ssa.UnOp); ok && u.Op == token.MUL {
 				if fv, _ := fieldOf(u.X); fv != nil && typeString(fv.Type()) == "bool" {
@@ -633,6 +633,59 @@ func (p *Prog) forwardsTo(fn *ssa.Function) *ssa.Function {
 	}
 	if len(only.Call.Args) != 2 || only.Call.Args[0] != ssa.Value(fn.Params[0]) || only.Call.Args[1] != ssa.Value(fn.Params[1]) || len(p.staticCallers(h)) != 1 {
 		return nil
+	}
+	return h
+}
+
+// followForward: when fn does nothing but call one unexported method of its
+// receiver with its own parameters, in order, and return what it returns - an
+// exported name kept as a thin wrapper - the method that does the work;
+// otherwise fn itself.
+func (p *Prog) followForward(fn *ssa.Function) *ssa.Function {
+	if fn == nil || len(fn.Blocks) != 1 || len(fn.Params) == 0 {
+		return fn
+	}
+	var only *ssa.Call
+	n, other := 0, false
+	var ret *ssa.Return
+	funcInstrs(fn, func(in ssa.Instruction) {
+		switch t := in.(type) {
+		case *ssa.Call:
+			n++
+			only = t
+		case *ssa.Return:
+			ret = t
+		case *ssa.DebugRef, *ssa.Extract:
+		default:
+			other = true
+		}
+	})
+	if n != 1 || other || only == nil || only.Call.IsInvoke() {
+		return fn
+	}
+	h := only.Call.StaticCallee()
+	if h == nil || !p.InModuleFn(h) || h.Package() != fn.Package() || h.Blocks == nil || (h.Object() != nil && h.Object().Exported()) || addrTaken(h) {
+		return fn
+	}
+	if len(only.Call.Args) != len(fn.Params) || len(p.staticCallers(h)) != 1 {
+		return fn
+	}
+	for i, av := range only.Call.Args {
+		if av != ssa.Value(fn.Params[i]) {
+			return fn
+		}
+	}
+	// every result is the callee's
+	if ret != nil {
+		for _, rv := range ret.Results {
+			if rv == ssa.Value(only) {
+				continue
+			}
+			if ex, ok := rv.(*ssa.Extract); ok && ex.Tuple == ssa.Value(only) {
+				continue
+			}
+			return fn
+		}
 	}
 	return h
 }
